@@ -17,6 +17,7 @@ pub mod c16;
 pub mod c17;
 pub mod c18;
 pub mod c19;
+pub mod c20;
 
 use crate::runner::{drive, replay, Tier};
 use std::path::Path;
@@ -63,6 +64,7 @@ pub fn dispatch(id: &str, tier: Tier, replay_file: Option<&Path>) -> i32 {
         "C17" => go!(c17),
         "C18" => go!(c18),
         "C19" => go!(c19),
+        "C20" => go!(c20),
         _ => {
             eprintln!("unknown property {id}");
             2
